@@ -98,7 +98,7 @@ pub const STR_POOL: &[&str] = &["", "a", "b", "ab", "abc", "k1", "x", "Ã©", "ÃŸâ
 pub const DBL_VAL_POOL: &[f64] = &[f64::NAN, f64::INFINITY, f64::NEG_INFINITY, 0.0, -0.0, 1.5];
 /// field names for e.f / has(e.f): map keys of the pools, a key that never occurs, and names of registered functions
 pub const FIELD_POOL: &[&str] = &["a", "b", "k1", "x", "nokey", "size", "h1"];
-pub const BYTES_POOL: &[&[u8]] = &[b"", b"a", b"ab", b"abc", b"\xff", b"\x00\x01"];
+pub const BYTES_POOL: &[&[u8]] = &[b"", b"a", b"ab", b"abc", b"\xff", b"\x00\x01", b"ca", b"bb", b"bc", b"abcabd"];
 
 pub fn int_lit(i: i64) -> String {
     format!("{}", i)
@@ -521,6 +521,12 @@ impl<'a> Gen<'a> {
                     12 => {
                         let m = self.expr(&T::Map(Box::new(T::Str), Box::new(T::Int)), d);
                         G::Has(bx(m), self.rng.pick(FIELD_POOL).to_string())
+                    }
+                    13 if self.rng.chance(1, 4) => {
+                        // bytes.contains(bytes)
+                        let a = self.expr(&T::Bytes, d);
+                        let b = self.expr(&T::Bytes, d);
+                        if self.rng.chance(1, 2) { G::Method(bx(a), "contains".into(), vec![b]) } else { G::Call("contains".into(), vec![a, b]) }
                     }
                     13 => {
                         let f = *self.rng.pick(&["startsWith", "endsWith", "contains"]);
